@@ -80,6 +80,7 @@ class DataCase(object):
             self.outputs = ['central.drug_amount',
                             'central.drug_concentration'][:self.n_out]
             self.direct = bool(rng.integers(2))
+            self.outputs_by_argument = idx % 2 == 1
         else:
             self.n_out = int(rng.integers(1, 3))
             self.outputs = ['Out %d' % (o + 1) for o in range(self.n_out)]
@@ -342,7 +343,16 @@ class DataCase(object):
 
 def _setup_controller(case, df, ctx, feats):
     kn = case.key_names
-    c = chi.ProblemModellingController(case.mech(), case.error_models())
+    if case.sbml and getattr(case, 'outputs_by_argument', False):
+        # the user's model still has its default outputs; the outputs of
+        # the problem are named when the controller is created
+        from chi.library import ModelLibrary
+        m_ = ModelLibrary().one_compartment_pk_model()
+        m_.set_administration('central', direct=case.direct)
+        c = chi.ProblemModellingController(
+            m_, case.error_models(), outputs=list(case.outputs))
+    else:
+        c = chi.ProblemModellingController(case.mech(), case.error_models())
     kw = dict(id_key=kn['id'], time_key=kn['time'], obs_key=kn['obs'],
               value_key=kn['value'])
     if case.has_doses:
